@@ -743,6 +743,9 @@ enum Item {
     Transfer { backend: Backend, path: usize },
     /// the whole history offline, then the server is added (thorough)
     TransferLate { backend: Backend, path: usize },
+    /// both devices hold a file secret; device 1 performs the whole history
+    /// (its transfers settle after every step), device 2 syncs once at the end
+    TransferLazy { backend: Backend, path: usize },
     Upload { part: usize, parts: usize },
 }
 
@@ -1101,6 +1104,113 @@ async fn run_transfer_late(sh: &Shared, backend: Backend, path: &[Op], wd: &Path
     out
 }
 
+/// Part (b), third mode ("second device syncs late"): both devices and the
+/// server hold the template's file secret. Device 1 performs the whole
+/// history, letting its own transfers settle after every step; device 2
+/// syncs only once at the end, so the file-log patch it merges carries
+/// several events about blobs it already holds (move then delete, move
+/// then move back, move then replace, attach then move, ...).
+async fn run_transfer_lazy(sh: &Shared, backend: Backend, path: &[Op], wd: &Path) -> ItemOut {
+    let mut out = ItemOut::new();
+    let tpl = tpl_of(sh, backend);
+    let (cpaths, cbytes) = load_content(sh);
+    let account_id: AccountId = tpl.account_id.parse().unwrap();
+    let sfx = if backend == Backend::Db { "late_sync:sqlite" } else { "late_sync" };
+    let last = path.last().map(|o| o.kind()).unwrap_or("nothing");
+    let res: Result<()> = async {
+        let _ = std::fs::remove_dir_all(wd);
+        let (d1, d2) = (wd.join("d1"), wd.join("d2"));
+        fsutil::copy_dir(Path::new(&tpl.dir_p), &d1)?;
+        fsutil::copy_dir(Path::new(&tpl.dir_p), &d2)?;
+        let server = start_server(&wd.join("server"), backend == Backend::Db, None, None).await?;
+        let mut dev1 = net_open(&d1, backend, account_id, "device_1").await?;
+        if let Some(r) = dev1.add_server(server.origin.clone()).await? {
+            if let Err(e) = r.result {
+                return Err(anyhow!("initial sync of device 1: {}", e));
+            }
+        }
+        let _ = settle(&dev1).await;
+        let dev2 = net_open(&d2, backend, account_id, "device_2").await?;
+        let mut dev2 = dev2;
+        if let Some(r) = dev2.add_server(server.origin.clone()).await? {
+            if let Err(e) = r.result {
+                return Err(anyhow!("initial sync of device 2: {}", e));
+            }
+        }
+        let _ = settle(&dev2).await;
+        let mut m = tpl.model_p.clone();
+        let mut fails = Fails::default();
+        let mut known_server: BTreeSet<String> = BTreeSet::new();
+        // starting point: server and both devices hold the template's blob
+        let start = m.expected();
+        check_server(&server, &account_id, "template", sfx, &start, &mut known_server, &mut fails, &mut out.cnt).await;
+        if walk_blobs(&dev2.paths().into_files_dir()).blobs != start {
+            return Err(anyhow!("the second device does not start with the template's blob"));
+        }
+        let mut done: Vec<Op> = vec![];
+        for op in path {
+            let r = apply(&mut dev1, &mut m, op, &cpaths).await;
+            out.cnt.transitions += 1;
+            done.push(op.clone());
+            if let Err(e) = &r {
+                *out.cnt.op_errors.entry(format!("network(lazy):{}: {}", op.kind(), e.chars().take(80).collect::<String>())).or_default() += 1;
+            }
+            let before = fails.0.len();
+            if !settle(&dev1).await {
+                fails.push(format!("transfer:device1_transfers_do_not_settle:after_{}:{}", op.kind(), sfx), format!("the transfer queue of the editing device is still busy {:?} after the operation", SETTLE_HORIZON), json!({}));
+            }
+            check_device(&dev1, &mut m, &cbytes, "transfer", "device1", op.kind(), sfx, false, &mut fails, &mut out.cnt).await;
+            if m.known {
+                check_server(&server, &account_id, op.kind(), sfx, &m.expected(), &mut known_server, &mut fails, &mut out.cnt).await;
+            }
+            for f in fails.0[before..].iter_mut() {
+                f["detail"]["history"] = json!(done);
+            }
+            out.states.insert(format!("lazy-{}|{}|{}", backend.name(), m.canon(), if m.known { "" } else { "op failed" }));
+        }
+        // only now the second device syncs: one merge of the whole history
+        let before = fails.0.len();
+        let sr = dev2.sync().await;
+        out.cnt.syncs += 1;
+        if let Some(e) = sr.first_error() {
+            *out.cnt.op_errors.entry(format!("device2 late sync after {}: {}", last, e.to_string().chars().take(80).collect::<String>())).or_default() += 1;
+        }
+        if !settle(&dev2).await {
+            fails.push(format!("transfer:device2_transfers_do_not_settle:after_{}:{}", last, sfx), format!("the transfer queue of the second device is still busy {:?} after its sync", SETTLE_HORIZON), json!({}));
+        }
+        if m.known {
+            let expected = m.expected();
+            let paths = dev2.paths();
+            await_blobs(&paths.into_files_dir(), &expected, &BTreeSet::new()).await;
+            let disk = walk_blobs(&paths.into_files_dir());
+            out.cnt.store_checks += 1;
+            out.cnt.blobs_hashed += disk.blobs.len() as u64;
+            let log = log_set(&dev2).await;
+            check_store("transfer", "device2", last, sfx, &disk, log.as_ref().ok(), None, &expected, &mut fails);
+            decrypt_on(&dev2, &m, &cbytes, path, &mut fails, &mut out.cnt).await;
+        }
+        for f in fails.0[before..].iter_mut() {
+            f["detail"]["history"] = json!(path);
+        }
+        out.histories += 1;
+        let _ = dev1.sign_out().await;
+        let _ = dev2.sign_out().await;
+        server.stop().await;
+        let kinds: Vec<&str> = path.iter().map(|o| o.kind()).collect();
+        for f in fails.0 {
+            out.fails.push(json!({"sig": f["sig"], "what": format!("both devices hold a file secret, device 1 performs {:?}, device 2 syncs once afterwards: {}", kinds, f["what"].as_str().unwrap_or("")), "witness": {"engine": "filex", "part": "b-lazy", "backend": backend, "path": path, "detail": f["detail"]}}));
+        }
+        out.samples.push(json!({"part": "b (second device syncs late)", "backend": backend.name(), "start": "template account + one file secret on both devices and the server", "history": path, "blobs_expected_after": m.expected().len()}));
+        out.extra = json!({"lazy": 1});
+        Ok(())
+    }
+    .await;
+    if let Err(e) = res {
+        out.error = Some(format!("transfer world (late sync): {}", e));
+    }
+    out
+}
+
 /// The second device decrypts what it holds to the original content.
 async fn decrypt_on(dev2: &NetworkAccount, m: &Model, cbytes: &[Vec<u8>; 2], path: &[Op], fails: &mut Fails, cnt: &mut Counters) {
     let paths = dev2.paths();
@@ -1446,6 +1556,56 @@ fn transfer_paths(tier: Tier) -> Vec<Vec<Op>> {
     paths
 }
 
+/// Does `op` write a file event about the existing file secret (slot 1 of
+/// the template with one file secret) or about the folder it is in?
+fn touches_existing(m: &Model, op: &Op) -> bool {
+    match op {
+        Op::Replace { s } | Op::Move { s } | Op::Delete { s } | Op::Archive { s } | Op::Attach { s } | Op::Detach { s } => *s == 1,
+        Op::DeleteFolder => m.secrets[1].alive && m.secrets[1].folder == 1,
+        _ => false,
+    }
+}
+
+/// Histories of the "second device syncs late" mode, from the template
+/// account that holds one file secret. `focused`: the first operation is
+/// move / archive / replace content / attach on that secret and every
+/// later one writes another file event about it (or deletes the folder it
+/// is in), i.e. exactly the histories that put several events about one
+/// existing blob into a single merged patch. Otherwise: all maximal
+/// histories of that depth with at most one attach.
+fn lazy_paths(depth: usize, focused: bool, tier: Tier) -> Vec<Vec<Op>> {
+    let root = symbolic_root(true);
+    if !focused {
+        let mut p = enumerate_paths(&root, depth, tier);
+        p.retain(|p| p.iter().filter(|o| matches!(o, Op::Attach { .. })).count() <= 1);
+        return p;
+    }
+    fn rec(m: &Model, d: usize, tier: Tier, cur: &mut Vec<Op>, out: &mut Vec<Vec<Op>>) {
+        let ops: Vec<Op> = m
+            .enabled(tier)
+            .into_iter()
+            .filter(|o| touches_existing(m, o))
+            .filter(|o| !cur.is_empty() || matches!(o, Op::Move { .. } | Op::Archive { .. } | Op::Replace { .. } | Op::Attach { .. }))
+            .collect();
+        if d == 0 || ops.is_empty() {
+            if cur.len() >= 2 {
+                out.push(cur.clone());
+            }
+            return;
+        }
+        for op in ops {
+            let mut m2 = m.clone();
+            m2.step(&op);
+            cur.push(op);
+            rec(&m2, d - 1, tier, cur, out);
+            cur.pop();
+        }
+    }
+    let mut out = vec![];
+    rec(&root, depth, tier, &mut vec![], &mut out);
+    out
+}
+
 fn items(tier: Tier) -> (Vec<Item>, Vec<Vec<Op>>) {
     let mut v = vec![];
     let mut paths = transfer_paths(tier);
@@ -1454,6 +1614,17 @@ fn items(tier: Tier) -> (Vec<Item>, Vec<Vec<Op>>) {
     // transferred, all depth 2 histories
     if tier == Tier::Thorough {
         paths.extend(enumerate_paths(&symbolic_root(false), 2, tier));
+    }
+    let n_late = paths.len();
+    // second-device-syncs-late mode: focused histories of the tier's depth
+    // (both worlds in thorough), and in thorough all depth 2 histories on
+    // the file-system world
+    let focused = lazy_paths(depth_b(tier), true, tier);
+    paths.extend(focused.iter().cloned());
+    let n_focused = paths.len();
+    if tier == Tier::Thorough {
+        let all2 = lazy_paths(2, false, tier);
+        paths.extend(all2.into_iter().filter(|p| !focused.contains(p)));
     }
     // longest items first: sub-trees below the account that already holds
     // a file secret (thorough only, see `rule`)
@@ -1482,8 +1653,14 @@ fn items(tier: Tier) -> (Vec<Item>, Vec<Vec<Op>>) {
                     }
                     v.push(Item::Transfer { backend, path: i });
                 }
-                for i in n_online..paths.len() {
+                for i in n_online..n_late {
                     v.push(Item::TransferLate { backend, path: i });
+                }
+                for i in n_late..paths.len() {
+                    if i >= n_focused && backend == Backend::Db {
+                        continue;
+                    }
+                    v.push(Item::TransferLazy { backend, path: i });
                 }
             }
         }
@@ -1498,6 +1675,8 @@ fn items(tier: Tier) -> (Vec<Item>, Vec<Vec<Op>>) {
         v.retain(|i| match i {
             Item::Hist { .. } => p.contains('a'),
             Item::Transfer { .. } | Item::TransferLate { .. } => p.contains('b'),
+            // L: the second-device-syncs-late mode alone
+            Item::TransferLazy { .. } => p.contains('b') || p.contains('L'),
             Item::Upload { .. } => p.contains('c'),
         });
     }
@@ -1544,6 +1723,7 @@ async fn run_item(sh: &Shared, it: &Item, paths: &[Vec<Op>], tier: Tier, wd: &Pa
         Item::Hist { backend, root, first } => explore(sh, *backend, root, Some(*first), None, depth_a(tier), tier, wd).await,
         Item::Transfer { backend, path } => run_transfer(sh, *backend, &paths[*path], wd).await,
         Item::TransferLate { backend, path } => run_transfer_late(sh, *backend, &paths[*path], wd).await,
+        Item::TransferLazy { backend, path } => run_transfer_lazy(sh, *backend, &paths[*path], wd).await,
         Item::Upload { part, parts } => run_upload(sh, *part, *parts, tier, wd, None).await,
     };
     let _ = std::fs::remove_dir_all(wd);
@@ -1567,6 +1747,11 @@ fn replay(args: &Args, path: &Path) -> ! {
                 let root = wit["root"].as_str().unwrap_or("E").to_string();
                 std::fs::create_dir_all(&wd).unwrap();
                 rt.block_on(explore(&sh, backend, &root, None, Some(&hist), hist.len(), Tier::Thorough, &wd))
+            }
+            Some("b-lazy") => {
+                let p: Vec<Op> = serde_json::from_value(wit["path"].clone()).expect("path");
+                let backend: Backend = serde_json::from_value(wit["backend"].clone()).unwrap_or(Backend::Fs);
+                rt.block_on(run_transfer_lazy(&sh, backend, &p, &wd))
             }
             Some("b-late") => {
                 let p: Vec<Op> = serde_json::from_value(wit["path"].clone()).expect("path");
@@ -1623,6 +1808,7 @@ fn main() {
         let nodes = |root: bool| -> usize { (1..=depth_a(args.tier)).map(|d| enumerate_paths(&symbolic_root(root), d, args.tier).len()).sum() };
         let count = |f: &dyn Fn(&Item) -> bool| its.iter().filter(|i| f(i)).count();
         println!("work items {}; part a histories per backend: from the template account {}, from the template account + one file secret {} (thorough tier only); part b histories: connected fs {}, connected sqlite {}, offline-then-connected {}", its.len(), nodes(false), nodes(true), count(&|i| matches!(i, Item::Transfer { backend: Backend::Fs, .. })), count(&|i| matches!(i, Item::Transfer { backend: Backend::Db, .. })), count(&|i| matches!(i, Item::TransferLate { .. })));
+        println!("part b, second device syncs late: fs {}, sqlite {}", count(&|i| matches!(i, Item::TransferLazy { backend: Backend::Fs, .. })), count(&|i| matches!(i, Item::TransferLazy { backend: Backend::Db, .. })));
         std::process::exit(0);
     }
     let mut run = Run::new("C17", "model_checking", &args);
@@ -1645,6 +1831,7 @@ fn main() {
     let mut samples: [Vec<Value>; 3] = [vec![], vec![], vec![]];
     let mut upload_status: BTreeMap<String, u64> = BTreeMap::new();
     let (mut refused, mut accepted, mut lock_waits) = (0u64, 0u64, 0u64);
+    let mut lazy_histories = 0u64;
     for (i, r) in res.into_iter().enumerate() {
         match r {
             pool::ItemResult::Crashed(w) => run.machinery(format!("item {:?}: {}", its[i], w)),
@@ -1655,7 +1842,7 @@ fn main() {
                 }
                 let k = match its[i] {
                     Item::Hist { .. } => 0,
-                    Item::Transfer { .. } | Item::TransferLate { .. } => 1,
+                    Item::Transfer { .. } | Item::TransferLate { .. } | Item::TransferLazy { .. } => 1,
                     Item::Upload { .. } => 2,
                 };
                 histories[k] += v["histories"].as_u64().unwrap_or(0);
@@ -1686,11 +1873,14 @@ fn main() {
                 refused += v["extra"]["refused"].as_u64().unwrap_or(0);
                 accepted += v["extra"]["accepted_correct"].as_u64().unwrap_or(0);
                 lock_waits += v["extra"]["lock_waits"].as_u64().unwrap_or(0);
+                lazy_histories += v["extra"]["lazy"].as_u64().unwrap_or(0);
                 for f in v["fails"].as_array().cloned().unwrap_or_default() {
                     run.fail(f["sig"].as_str().unwrap_or("?"), f["what"].as_str().unwrap_or(""), f["witness"].clone());
                 }
                 for s in v["samples"].as_array().cloned().unwrap_or_default() {
-                    push_sample(&mut samples[k], s, 3);
+                    // the late-sync mode gets sample slots of its own
+                    let cap = if matches!(its[i], Item::TransferLazy { .. } | Item::TransferLate { .. }) { 5 } else { 3 };
+                    push_sample(&mut samples[k], s, cap);
                 }
             }
         }
@@ -1707,9 +1897,9 @@ fn main() {
     cov.insert("traces_validated_against_impl".into(), json!(histories[0] + histories[1] + histories[2]));
     cov.insert("samples".into(), json!(all_samples));
     cov.insert("exhaustive".into(), json!(true));
-    cov.insert("rule".into(), json!(format!("The template account has a default folder, a second folder holding one plain note secret, and an archive. (a) every history up to depth {da} over {{create file secret (6000-byte content in the default folder | 100-byte content in the second folder; the other combinations arise through replace and move), replace content (Account::update_file; the fresh secret has no fields), update meta only, move to the other folder, delete secret, delete the second folder, archive, attach an external-file field made from a real file (to a file secret, which then owns two blobs, or to the note secret), remove the field again (update_secret without it)}} x every live secret (the note only takes part while it owns a blob, at most one file field per secret), from the template account{pb}, on the file-system and sqlite client backends, explored as a tree with directory snapshots; each file encryption / decryption costs about 1 s (age scrypt), hence the shallow depth. (b) maximal histories of depth {db} from the template account that contain at most one attach operation{bq}, through the real NetworkAccount (sync + file transfer queue) against an in-process server, second device = real NetworkAccount on a copy of the template that syncs after every step{late}. (c) a {blen}-byte real encrypted blob: every single-byte alteration ({vals} per position), truncation at every length, empty, 3 extended bodies, 2 wrong names, connection closed midway at {ab} length, repeated upload; each followed by a correct upload and a download. A state is the id-free model state (folder liveness; per secret: folder, kind, content, contents of its file fields) per backend", da = depth_a(args.tier), pb = args.tier.pick(String::new(), format!(" and, on the file-system backend, from the template account that already holds one file secret (i.e. depth {} histories that begin with a create)", depth_a(args.tier) + 1)), db = depth_b(args.tier), bq = args.tier.pick(" and do not end with a create (a create as last step only repeats the upload / download every history begins with), file-system devices and server", " (file-system world: all of them; sqlite world: those that do not end with a create)"), late = args.tier.pick("", "; and all depth 2 histories performed with no server configured, after which first the editing device and then the second device add the server (both worlds)"), blen = std::fs::metadata(&sh.upload_blob).map(|m| m.len()).unwrap_or(0), vals = args.tier.pick("3 values", "all 255 values"), ab = args.tier.pick("every 16th", "every"))));
+    cov.insert("rule".into(), json!(format!("The template account has a default folder, a second folder holding one plain note secret, and an archive. (a) every history up to depth {da} over {{create file secret (6000-byte content in the default folder | 100-byte content in the second folder; the other combinations arise through replace and move), replace content (Account::update_file; the fresh secret has no fields), update meta only, move to the other folder, delete secret, delete the second folder, archive, attach an external-file field made from a real file (to a file secret, which then owns two blobs, or to the note secret), remove the field again (update_secret without it)}} x every live secret (the note only takes part while it owns a blob, at most one file field per secret), from the template account{pb}, on the file-system and sqlite client backends, explored as a tree with directory snapshots; each file encryption / decryption costs about 1 s (age scrypt), hence the shallow depth. (b) maximal histories of depth {db} from the template account that contain at most one attach operation{bq}, through the real NetworkAccount (sync + file transfer queue) against an in-process server, second device = real NetworkAccount on a copy of the template that syncs after every step{late}. Third mode, 'second device syncs late': server and both devices start with the template account that already holds one file secret (blob present everywhere); device 1 performs the history, its transfers settling after every step, and device 2 syncs only once at the end, so that one merged file-log patch carries several events about a blob the device already holds; histories: {lazy}. (c) a {blen}-byte real encrypted blob: every single-byte alteration ({vals} per position), truncation at every length, empty, 3 extended bodies, 2 wrong names, connection closed midway at {ab} length, repeated upload; each followed by a correct upload and a download. A state is the id-free model state (folder liveness; per secret: folder, kind, content, contents of its file fields) per backend", da = depth_a(args.tier), pb = args.tier.pick(String::new(), format!(" and, on the file-system backend, from the template account that already holds one file secret (i.e. depth {} histories that begin with a create)", depth_a(args.tier) + 1)), db = depth_b(args.tier), lazy = args.tier.pick(format!("depth 2, first operation move / archive / replace content / attach on the existing file secret, second operation another one that writes a file event about that secret or deletes the folder it is in (file-system world)"), format!("up to depth 3 with the first operation move / archive / replace content / attach on the existing file secret and every later one writing another file event about it (file-system and sqlite worlds), plus every depth 2 history from that account with at most one attach (file-system world)")), bq = args.tier.pick(" and do not end with a create (a create as last step only repeats the upload / download every history begins with), file-system devices and server", " (file-system world: all of them; sqlite world: those that do not end with a create)"), late = args.tier.pick("", "; and all depth 2 histories performed with no server configured, after which first the editing device and then the second device add the server (both worlds)"), blen = std::fs::metadata(&sh.upload_blob).map(|m| m.len()).unwrap_or(0), vals = args.tier.pick("3 values", "all 255 values"), ab = args.tier.pick("every 16th", "every"))));
     cov.insert("part_a_histories_one_device".into(), json!({"histories": histories[0], "depth": depth_a(args.tier), "backends": ["fs", "sqlite"], "work_items": its.iter().filter(|i| matches!(i, Item::Hist { .. })).count()}));
-    cov.insert("part_b_transfer".into(), json!({"machinery": "real sos_net::NetworkAccount on both devices (add_server, automatic sync after every operation, its own file transfer queue); not the bare HttpClient file API", "maximal_histories": histories[1], "depth": depth_b(args.tier), "device_and_server_backends": args.tier.pick("fs", "fs and sqlite"), "second_device_syncs": cnt.syncs}));
+    cov.insert("part_b_transfer".into(), json!({"machinery": "real sos_net::NetworkAccount on both devices (add_server, automatic sync after every operation, its own file transfer queue); not the bare HttpClient file API", "maximal_histories": histories[1], "depth": depth_b(args.tier), "device_and_server_backends": args.tier.pick("fs", "fs and sqlite"), "second_device_syncs": cnt.syncs, "of_which_second_device_syncs_late_(one_merge_of_the_whole_history)": lazy_histories}));
     cov.insert("part_c_upload_inputs".into(), json!({"inputs": histories[2], "http_requests": cnt.requests, "wrong_bodies_refused": refused, "correct_uploads_accepted_afterwards": accepted, "retries_while_the_server_held_the_file_lock_of_an_aborted_upload": lock_waits, "responses": upload_status}));
     cov.insert("store_checks".into(), json!(cnt.store_checks));
     cov.insert("blobs_hashed".into(), json!(cnt.blobs_hashed));
